@@ -192,6 +192,8 @@ def run(tier, seed):
     check_cases(chk, cases, profiles, full)
     traces, concrete = record_traces(2500 if full else 300, seed)
     validate_traces(chk, traces, concrete, seed)
+    from harness import algebra
+    algebra.run(chk, ['A3'], full, seed)
     chk.exhaustive = True
     chk.assumptions = ['rectangular tables (rows have the header\'s length), as C08 states',
                        'bounds: loop model <= %d rows per side over 3 distinct rows; generated tables <= 3 rows over 4 distinct rows'
